@@ -407,12 +407,21 @@ func (x *Exec) applyContract(st *State, fr *Frame, c *FuncContract, key string, 
 		names = names[1:] // no receiver (function variable)
 	}
 	env := &SpecEnv{x: x, st: st, old: st, names: map[string]Value{}, pkg: x.pkgOfKey(key, fn), fr: nil}
+	argN := 0
 	for i, n := range names {
 		if i < len(args) && n != "" && n != "_" {
 			env.names[n] = args[i]
 		}
+		// positional names arg0, arg1, ... for the (possibly unnamed) parameters after the receiver
+		if i < len(args) && n != "self" {
+			env.names[fmt.Sprintf("arg%d", argN)] = args[i]
+			argN++
+		}
 	}
 	short := shortName(key)
+	if fn != nil && fn.Parent() != nil && fr != nil && fr.fn == fn.Parent() {
+		env.witFr = fr // (see env2 below)
+	}
 	if fn != nil && len(x.pendingBinds) > 0 {
 		for i, fv := range fn.FreeVars {
 			if i < len(x.pendingBinds) {
@@ -420,6 +429,7 @@ func (x *Exec) applyContract(st *State, fr *Frame, c *FuncContract, key string, 
 			}
 		}
 	}
+	x.assignBinds, x.assignFn = x.pendingBinds, fn
 	x.pendingBinds = nil
 	for _, l := range c.Lets {
 		env.names[l.Name] = env.eval(l.E) // entry-state snapshots of the callee's contract
@@ -476,6 +486,11 @@ func (x *Exec) applyContract(st *State, fr *Frame, c *FuncContract, key string, 
 		res[idx].Dyn = &dv
 	}
 	env2 := &SpecEnv{x: x, st: st, old: oldSt, names: env.names, pkg: env.pkg, results: res, sig: sig}
+	if fn != nil && fn.Parent() != nil && fr != nil && fr.fn == fn.Parent() {
+		// the contract of a function literal may mention locals of the function it is
+		// written in (their values at the call)
+		env2.witFr = fr
+	}
 	for _, e := range c.Ensures {
 		if strings.HasPrefix(e.Label, "bounded-") || strings.HasPrefix(e.Label, "assumed-") {
 			x.assumed[key+" clause "+e.Label+" (used at a call site; not proved in general)"] = true
@@ -520,6 +535,22 @@ func paramNames(sig *types.Signature, fn *ssa.Function) []string {
 
 func (x *Exec) applyAssigns(st *State, env *SpecEnv, c *FuncContract, args []Value) {
 	for _, a := range c.Assigns {
+		x.applyAssign(st, env, a)
+	}
+}
+
+func (x *Exec) applyAssign(st *State, env *SpecEnv, a AssignSpec) {
+	// a frame target that names a local of the enclosing function which does not exist
+	// on this path denotes nothing
+	defer func() {
+		if r := recover(); r != nil {
+			if se, ok := r.(*SpecError); ok && strings.Contains(se.Msg, "local-at-exit") {
+				return
+			}
+			panic(r)
+		}
+	}()
+	{
 		switch a.Kind {
 		case "nothing":
 		case "target":
@@ -535,6 +566,27 @@ func (x *Exec) applyAssigns(st *State, env *SpecEnv, c *FuncContract, args []Val
 				unsupported("assigns ghost %s: undeclared ghost variable", a.Heap)
 			}
 			st.ghost[a.Heap] = x.freshLike(st, old, "gh."+a.Heap)
+		case "var":
+			done := false
+			if x.assignFn != nil {
+				for i, fv := range x.assignFn.FreeVars {
+					if fv.Name() == a.Heap && i < len(x.assignBinds) {
+						b := x.assignBinds[i]
+						if b.K == KPtr && b.B == BCell {
+							if cv, ok := st.cells[b.Cell]; ok {
+								st.cells[b.Cell] = x.symbolicLike(st, cv, "hv."+a.Heap)
+								done = true
+							}
+						} else {
+							x.havocReachable(st, b)
+							done = true
+						}
+					}
+				}
+			}
+			if !done {
+				unsupported("assigns var %s: not a captured variable of the callee", a.Heap)
+			}
 		case "all":
 			for _, name := range heapNames(st.heaps) {
 				x.setHeap(st, name, x.d.fresh("hv."+name, x.heapSorts[name]))
